@@ -11,6 +11,7 @@ from .conf import config
 def fftrange(n, dtype=None):
     """FFT-aligned coordinate grid for n samples."""
     # return np.arange(-n//2, -n//2+n, dtype=dtype)
+    n = int(n)  # numpy unsigned integers would wrap in -(n//2)
     return np.arange(-(n//2), -(n//2)+n, dtype=dtype)
 
 
@@ -467,7 +468,7 @@ class ChirpZTransformExecutor:
             dtype = config.precision
 
         m, n = ary.shape
-        M, N = samples_out
+        M, N = (int(s) for s in samples_out)  # python ints: numpy integers wrap in the index arithmetic
         alphay = 1/(m*Q[0])
         alphax = 1/(n*Q[1])
         # alphay, alphax = Q
